@@ -4,6 +4,10 @@ use std::sync::Arc;
 
 use tokio::sync::Notify;
 
+#[cfg(eigerco_lumina_verif)]
+#[path = "counter_verif_hooks.rs"]
+pub(crate) mod verif_hooks;
+
 pub(crate) struct Counter {
     counter: Arc<()>,
     notify: Arc<Notify>,
@@ -16,8 +20,14 @@ pub(crate) struct CounterGuard {
 
 impl Drop for CounterGuard {
     fn drop(&mut self) {
+        #[cfg(eigerco_lumina_verif)]
+        verif_hooks::sched_point(0);
         self.counter.take();
+        #[cfg(eigerco_lumina_verif)]
+        verif_hooks::sched_point(1);
         self.notify.notify_waiters();
+        #[cfg(eigerco_lumina_verif)]
+        verif_hooks::sched_point(2);
     }
 }
 
@@ -38,11 +48,21 @@ impl Counter {
 
     /// Wait all guards to drop.
     pub(crate) async fn wait_guards(&mut self) {
+        #[cfg(eigerco_lumina_verif)]
+        verif_hooks::sched_point(3);
         let mut notified = pin!(self.notify.notified());
+        #[cfg(eigerco_lumina_verif)]
+        verif_hooks::sched_point(4);
 
         while Arc::strong_count(&self.counter) > 1 {
+            #[cfg(eigerco_lumina_verif)]
+            verif_hooks::sched_point(5);
             notified.as_mut().await;
+            #[cfg(eigerco_lumina_verif)]
+            verif_hooks::sched_point(6);
             notified.set(self.notify.notified());
+            #[cfg(eigerco_lumina_verif)]
+            verif_hooks::sched_point(7);
         }
     }
 }
